@@ -56,6 +56,20 @@ func (sc *Scope) evalBool(e *SExpr) Term {
 	return t
 }
 
+// tryBool evaluates e; defined is false when the expression dereferences a statically nil pointer.
+func (sc *Scope) tryBool(e *SExpr) (t Term, defined bool) {
+	defer func() {
+		if r := recover(); r != nil {
+			if se, ok := r.(specError); ok && strings.Contains(se.msg, "nil pointer") {
+				t, defined = Term{}, false
+				return
+			}
+			panic(r)
+		}
+	}()
+	return sc.evalBool(e), true
+}
+
 func (sc *Scope) defaultIntSort() *Sort {
 	if sc.ex.vc.Mode == "bv" {
 		return SBV(64)
@@ -87,7 +101,9 @@ func (sc *Scope) lit(e *SExpr, want *Sort) Term {
 		if want.Kind != KReal {
 			sc.errorf(e, "real literal where %s expected", want)
 		}
-		return ratTerm(r)
+		// a decimal literal denotes what it denotes in Go: the nearest float64 (1.99 is not 199/100)
+		f, _ := r.Float64()
+		return ratTerm(new(big.Rat).SetFloat64(f))
 	}
 	return IntLit(k, want)
 }
@@ -116,7 +132,7 @@ func (sc *Scope) evalWant(e *SExpr, want *Sort) Term {
 }
 
 func (sc *Scope) coerce(t Term, want *Sort) Term {
-	if want == nil || t.Sort == want {
+	if want == nil || sameSort(t.Sort, want) {
 		return t
 	}
 	if t.Sort.Kind == KInt && want.Kind == KReal {
@@ -208,6 +224,7 @@ func (sc *Scope) evalVal(e *SExpr) Val {
 			if base.P == nil {
 				sc.errorf(e, "field of nil pointer")
 			}
+			_ = base.NilIf // a possibly-nil pointer: the contract is expected to guard the access
 			cur := sc.ex.loadLV(sc.st, base.P)
 			path, ok := fieldPath(cur.Sort, e.Name)
 			if !ok {
@@ -277,11 +294,27 @@ func (sc *Scope) binary(e *SExpr) Term {
 	op := e.Name
 	switch op {
 	case "&&":
-		return And(sc.evalBool(e.Args[0]), sc.evalBool(e.Args[1]))
+		a := sc.evalBool(e.Args[0])
+		if a.B != nil && !*a.B {
+			return TFalse // short circuit: the right operand may be undefined
+		}
+		return And(a, sc.evalBool(e.Args[1]))
 	case "||":
-		return Or(sc.evalBool(e.Args[0]), sc.evalBool(e.Args[1]))
+		a := sc.evalBool(e.Args[0])
+		if a.B != nil && *a.B {
+			return TTrue
+		}
+		return Or(a, sc.evalBool(e.Args[1]))
 	case "==>":
-		return Implies(sc.evalBool(e.Args[0]), sc.evalBool(e.Args[1]))
+		a := sc.evalBool(e.Args[0])
+		if a.B != nil && !*a.B {
+			return TTrue
+		}
+		b, defined := sc.tryBool(e.Args[1])
+		if !defined {
+			return Not(a) // the consequent dereferences a nil pointer: the antecedent must not hold
+		}
+		return Implies(a, b)
 	case "<==>":
 		return Eq(sc.evalBool(e.Args[0]), sc.evalBool(e.Args[1]))
 	}
@@ -314,7 +347,7 @@ func (sc *Scope) binary(e *SExpr) Term {
 	} else if a.Sort.Kind == KReal && b.Sort.Kind == KInt {
 		b = toReal(b)
 	}
-	if a.Sort != b.Sort {
+	if !sameSort(a.Sort, b.Sort) {
 		sc.errorf(e, "operands of different sorts: %s and %s", a.Sort, b.Sort)
 	}
 	switch op {
@@ -384,8 +417,9 @@ func (sc *Scope) binder(e *SExpr) Term {
 	vc := sc.ex.vc
 	// typed binder: forall(x Int, y Real, body)
 	if len(e.Vars) > 0 {
-		if len(e.Args) != 1 {
-			sc.errorf(e, "typed binder needs exactly one body")
+		// forall(x S, y S, body [, trigger(t1, t2, ...)])
+		if len(e.Args) != 1 && !(len(e.Args) == 2 && e.Args[1].Op == "call" && e.Args[1].Name == "trigger") {
+			sc.errorf(e, "typed binder needs exactly one body (and optionally a trigger(...))")
 		}
 		inner := sc
 		var decl []string
@@ -396,6 +430,13 @@ func (sc *Scope) binder(e *SExpr) Term {
 			decl = append(decl, fmt.Sprintf("(%s %s)", name, s.Name))
 		}
 		body := inner.evalBool(e.Args[0])
+		if len(e.Args) == 2 {
+			var ps []string
+			for _, p := range e.Args[1].Args {
+				ps = append(ps, inner.eval(p).S)
+			}
+			return Term{S: fmt.Sprintf("(%s (%s) (! %s :pattern (%s)))", q, strings.Join(decl, " "), body.S, strings.Join(ps, " ")), Sort: SBool}
+		}
 		return Term{S: fmt.Sprintf("(%s (%s) %s)", q, strings.Join(decl, " "), body.S), Sort: SBool}
 	}
 	// bounded integer binder: forall(i, lo, hi, body)
@@ -460,6 +501,9 @@ func (sc *Scope) call(e *SExpr) Term {
 	case "isNil":
 		v := sc.evalVal(e.Args[0])
 		if v.IsPtr && !v.LValue {
+			if v.P != nil && v.NilIf.Sort != nil {
+				return v.NilIf
+			}
 			return BoolT(v.P == nil)
 		}
 		t := sc.dataOf(e.Args[0], v)
@@ -566,7 +610,7 @@ func (sc *Scope) call(e *SExpr) Term {
 	args := make([]Term, len(e.Args))
 	for i, a := range e.Args {
 		args[i] = sc.evalWant(a, sig.Params[i])
-		if args[i].Sort != sig.Params[i] {
+		if !sameSort(args[i].Sort, sig.Params[i]) {
 			sc.errorf(e, "argument %d of %s has sort %s, want %s", i+1, e.Name, args[i].Sort, sig.Params[i])
 		}
 	}
@@ -588,7 +632,7 @@ func (sc *Scope) lemmaInstance(e *SExpr, lm *Lemma) Term {
 	for i, p := range lm.Params {
 		s := vc.sortByName(p.Sort)
 		t := sc.evalWant(e.Args[i], s)
-		if t.Sort != s {
+		if !sameSort(t.Sort, s) {
 			sc.errorf(e, "lemma argument %d has sort %s, want %s", i+1, t.Sort, s)
 		}
 		inner.bound[p.Name] = t
@@ -616,7 +660,7 @@ func (vc *VC) sortByName(name string) *Sort {
 		return SReal
 	case "Bool":
 		return SBool
-	case "GoStr":
+	case "GoStr", "String":
 		return vc.StrSort()
 	case "Iface":
 		return vc.IfaceSort()
